@@ -38,6 +38,7 @@ def run(ctx):
     ctx.do(rule_wrapper)
     ctx.do(rule_raw_deref)
     ctx.do(rule_check_ref_tolerant)
+    ctx.do(rule_store_ingestion_tolerant)
     # "returns a fully validated object": a value no serialisation can write is not validated
     from .C02 import rule_floats_finite
     ctx.do(rule_floats_finite, rule_id="C17.wrapper")
@@ -445,6 +446,45 @@ def rule_check_ref_tolerant(ctx):
                           file=fi.module.relpath, line=bad[1].lineno, function=fi.qualname,
                           expected="try / except around the dereference (InvalidObjRefError)", found=short(bad[1], 60))
     run.ok(R, key(fi.module.relpath, fi.qualname, "valid-refs-entries-dereferenced-under-guard"), "%d dereferences examined" % n)
+
+
+def rule_store_ingestion_tolerant(ctx, rule_id="C17.raw-deref"):
+    """The memory store's _add takes decoded content as it comes (a dictionary, a list, a bundle dictionary) and reads `type`,
+    `id` and `modified` from it -- partly BEFORE parse() has seen it, partly from what parse() returned, which for an
+    unregistered type is the caller's dictionary unvalidated.  Every constant-key subscript on the raw content or on the parse
+    result is under a presence test for that key (or replaced by .get / a raised library error): `add({})` must not raise
+    KeyError('type'), `add({'type': 'x-foo'})` not KeyError('id')."""
+    run = ctx.run
+    prog = ctx.prog
+    fi = prog.func("stix2.datastore.memory::_add")
+    raw = {fi.params[1]}
+    for a_ in body_walk(fi.node):
+        if isinstance(a_, ast.Assign) and isinstance(a_.targets[0], ast.Name) and (
+                (isinstance(a_.value, ast.Call) and call_simple_name(a_.value) == "parse") or norm(a_.value) in raw):
+            raw.add(a_.targets[0].id)
+    n = 0
+    for x in body_walk(fi.node):
+        if not (isinstance(x, ast.Subscript) and isinstance(x.ctx, ast.Load) and isinstance(x.slice, ast.Constant)
+                and isinstance(x.slice.value, str) and norm(x.value) in raw):
+            continue
+        n += 1
+        k = x.slice.value
+        recv = norm(x.value)
+        # a guard counts when it names the same key on the same value or on one it was assigned from / to (aliases in `raw`)
+        guarded = any(pol and any(("'%s' in %s" % (k, r_)) in norm(t) for r_ in raw) for t, pol, _ in guard_chain(x)) or any(
+            (not pol) and any(("'%s' not in %s" % (k, r_)) in norm(t) for r_ in raw) for t, pol, _ in guard_chain(x))
+        # or an earlier statement of the function leaves when the key is missing
+        if not guarded:
+            for st_ in body_walk(fi.node):
+                if isinstance(st_, ast.If) and st_.lineno < x.lineno and any(("'%s' not in %s" % (k, r_)) in norm(st_.test) for r_ in raw) \
+                        and st_.body and isinstance(st_.body[-1], (ast.Raise, ast.Return)):
+                    guarded = True
+        run.check(guarded, rule_id, key(fi.module.relpath, fi.qualname, "content-key-read-under-presence-test:%s#%d" % (k, n)),
+                  "KeyError(%r) can escape from the store: the key is read from raw (or unvalidated) content with a subscript and no "
+                  "presence test" % k, file=fi.module.relpath, line=x.lineno, function=fi.qualname,
+                  expected="'%s' in <content> before %s['%s'] (or .get)" % (k, recv, k), found=short(x, 50))
+    if n < 2:
+        raise AnalysisError("memory _add: fewer than 2 constant-key reads of the content (%d): anchors lost" % n)
 
 
 def rule_failed_write_leaves_no_file(ctx, rule_id="C17.commit-last"):
